@@ -1,5 +1,6 @@
 CONSTANTS MaxEdits = 3
- Cfgs = {"none", "unsafeB", "unsafeA", "passB", "unsafeOwn", "passOwn"}
+ Cfgs = {"none", "unsafeB", "unsafeA", "passB", "unsafeOwn", "passOwn", "passPath", "unsafePath"}
+ InitVals = {"unset", "v0", "v1"}
  HashValues = TRUE
  EmitAll = FALSE
 SPECIFICATION Spec
